@@ -181,6 +181,26 @@ def base_cases(ctx):
     cases.append(("frag-3SGB-I0+12", corpus.fragment("3SGB", "I", 0, 12), []))
     cases.append(("frag-1FTJ-A100+30", corpus.fragment("1FTJ-Chain-A", "A", 100, 30), []))
     cases.append(("none", corpus.no_group_structure(), []))
+    # small multi-conformation inputs (alternate locations, MODEL records, point mutants between conformations): every
+    # run-level property sees them, not only C08
+    from .props import c08
+    multi = dict(c08.constructed(ctx))
+    for n in ("alt-rotamers-AB", "mutant-A-ASP-B-ASN", "identical-models-1-2", "model2-missing-atoms", "nterm-residue-altAB"):
+        if n in multi:
+            cases.append((n, multi[n], []))
+    # two copies of one ligand in one chain (hetero group labels carry no residue number), a residue that kept its
+    # defining atom but lost its interaction atoms, a disulfide fragment - alone and under options
+    from .props import c14
+    frs = dict(c14.fragments(ctx))
+    for n in ("two-ligand-copies", "frag-3SGB-disulfide", "frag-1HPX-A20+7+altlocs"):
+        if n in frs:
+            cases.append((n, corpus.join(frs[n]), []))
+    if "frag-3SGB-disulfide" in frs:
+        cases.append(("frag-3SGB-disulfide -d", corpus.join(frs["frag-3SGB-disulfide"]), ["-d"]))
+        cases.append(("frag-3SGB-disulfide --protonate-all", corpus.join(frs["frag-3SGB-disulfide"]), ["--protonate-all"]))
+    e = corpus.chain_lines("3SGB", "E", 0, 25)
+    cases.append(("frag-3SGB-E-ASP-without-oxygens",
+                  corpus.join([ln for ln in e if not (ln[17:20] == "ASP" and ln[12:16].strip() in ("OD1", "OD2"))] + [corpus.TER]), []))
     return cases
 
 
